@@ -1155,7 +1155,7 @@ pub fn check_c09(cx: &Ctx, ix: &Index, sc: &mut SigCache) -> Report {
 
 // ---------------------------------------------------------------------------------------------
 // C19 extra: certificates of honest nodes are accepted by the other honest nodes
-pub fn check_c19_acceptance(cx: &Ctx, ix: &Index) -> Report {
+pub fn check_c19_acceptance(cx: &Ctx, ix: &Index, sc: &mut SigCache) -> Report {
     let mut r = Report::default();
     let t = cx.topo;
     for (node, positions) in &ix.core {
@@ -1167,9 +1167,11 @@ pub fn check_c19_acceptance(cx: &Ctx, ix: &Index) -> Report {
             match &cx.log[*p].kind {
                 Kind::Core(CE::Begin { input, .. }) => {
                     if cur.is_none() {
+                        // Genuinely from an honest node: names it as author AND carries its valid
+                        // signature (anybody can put an honest node's name on a forged message).
                         let from_honest = match input {
-                            Input::Propose(b) => t.index_of(&b.author).map_or(false, |a| cx.is_honest(a)),
-                            Input::Timeout(to) => t.index_of(&to.author).map_or(false, |a| cx.is_honest(a)),
+                            Input::Propose(b) => t.index_of(&b.author).map_or(false, |a| cx.is_honest(a)) && block_sig_valid(t, sc, b),
+                            Input::Timeout(to) => t.index_of(&to.author).map_or(false, |a| cx.is_honest(a)) && timeout_sig_valid(t, sc, to),
                             _ => false,
                         };
                         cur = Some((*p, from_honest));
@@ -1210,7 +1212,7 @@ pub fn check_all(cx: &Ctx) -> (Report, Index) {
     r.merge(check_c05_c10_c19(cx, &ix, &mut sc));
     r.merge(check_c08(cx, &ix));
     r.merge(check_c09(cx, &ix, &mut sc));
-    r.merge(check_c19_acceptance(cx, &ix));
+    r.merge(check_c19_acceptance(cx, &ix, &mut sc));
     r.count("sig_checks", sc.checks);
     // General run statistics.
     let mut kinds: BTreeMap<&'static str, u64> = BTreeMap::new();
